@@ -340,6 +340,33 @@ def multi_param_shape():
                  decl.replace("\n", " "), exercises=["impl/src/utils.rs::parse_punctuated_nested_meta", "impl/src/error.rs::parse_fields"], quick=True)
 
 
+def near_miss_names_shape():
+    """Field names that merely resemble `source` / `backtrace` select nothing (seed C09-raw-prefix-trim-matches-rsource).  (Whether a field written
+    `r#source` counts as "named source" is not fixed by the property - the pinned tree says no - and is not asserted either way.)"""
+    decl = ("#[derive(Debug, derive_more::Error)]\npub struct Near { pub rsource: Er, pub sources: Er, pub resource: Er }\n"
+            "#[derive(Debug, derive_more::Error)]\npub enum NE { A { rsource: Er, code: Er }, B { source_: Er }, C { source: Er, rrsource: Er } }\nplain_display!(Near, NE);")
+    src = """    #[kani::proof]
+    fn names_that_resemble_source() {
+        let n = Near { rsource: Er(kani::any()), sources: Er(kani::any()), resource: Er(kani::any()) };
+        %s
+        let v = match kani::any::<u8>() %% 3 { 0 => NE::A { rsource: Er(kani::any()), code: Er(kani::any()) }, 1 => NE::B { source_: Er(kani::any()) }, _ => NE::C { source: Er(kani::any()), rrsource: Er(kani::any()) } };
+        let got = v.source();
+        match &v {
+            NE::A { .. } => { %s }
+            NE::B { .. } => { %s }
+            NE::C { source, .. } => { %s }
+        }
+        kani::cover!(matches!(v, NE::C { .. }), "reach C");
+    }
+""" % (expect_src("n.source()", None, "fields named rsource / sources / resource"),
+       expect_src("got", None, "variant field named rsource"), expect_src("got", None, "variant field named source_"),
+       expect_src("got", "addr_of(source)", "variant field named source next to rrsource"))
+    return Shape("c09_near_miss_field_names", HEAD + decl + "\n\n#[cfg(kani)]\nmod proofs {\n    use super::*;\n" + src + "}\n",
+                 [Harness("names_that_resemble_source", "payloads and variant symbolic", covers=1,
+                          asserts="only a field called exactly `source` is inferred as the source")],
+                 decl.replace("\n", " "), exercises=["impl/src/error.rs::parse_fields (named)"], quick=True)
+
+
 def all_layouts():
     for named in (False, True):
         for n in (1, 2, 3):
@@ -385,7 +412,7 @@ def shapes(tier):
         ign_before = any(attrs[i] == "ignore" and any(a != "ignore" for a in attrs[i + 1:]) for i in range(n))
         quick = n == 1 or (ign_before and (k % 3 == 0 or n == 2)) or k % 11 == 0
         out.append(layout_shape(named, attrs, names, quick))
-    out += special_shapes() + backtrace_shapes() + [multi_param_shape()]
+    out += special_shapes() + backtrace_shapes() + [multi_param_shape(), near_miss_names_shape()]
     out += ambiguous_shapes()
     shapes.excluded = excluded
     if tier == "quick":
